@@ -109,6 +109,7 @@ def _main(prop, mod, modname, tier, seed, replay, ncases, no_prove, workdir, t0)
 
     # 5. compare
     failures = []
+    model_broken: List[int] = []
     evaluated = 0
     nontrivial = set()
     skipped = 0
@@ -124,7 +125,8 @@ def _main(prop, mod, modname, tier, seed, replay, ncases, no_prove, workdir, t0)
             skipped += 1
             continue
         if c["case_no"] not in model:
-            failures.append((c, res, None, ["model evaluation failed (coqc): " + "; ".join(eval_errors)[:1500]]))
+            # the model could not be evaluated (its Coq files no longer compile): not a failing input, a broken tie
+            model_broken.append(c["case_no"])
             continue
         evaluated += 1
         m = model[c["case_no"]]
@@ -154,8 +156,8 @@ def _main(prop, mod, modname, tier, seed, replay, ncases, no_prove, workdir, t0)
             violations.append(path)
             lines.append(f"VIOLATION property={prop} replay={path}")
         reported += 1
-    proof_broken = (not prove["ok"]) or (not chk_ok)
-    if proof_broken and not replay:
+    proof_broken = (not prove["ok"]) or (not chk_ok) or bool(model_broken)
+    if proof_broken:
         if not violations:
             path = os.path.join(fw.VERIF, "replays", f"{prop}_{tier}_{seed}_proof.json")
             fw.write_json(path, {"property": prop, "tier": tier, "seed": seed,
@@ -163,6 +165,7 @@ def _main(prop, mod, modname, tier, seed, replay, ncases, no_prove, workdir, t0)
                                  "theorems": prove.get("theorems"), "assumptions": prove.get("assumptions"),
                                  "forbidden": prove.get("forbidden"), "translator": tr, "coq_log_tail": prove.get("log", "")[-3000:],
                                  "coqchk": chk_out,
+                                 "model_not_evaluable_for_cases": model_broken[:20], "model_eval_errors": [e[-1500:] for e in eval_errors[:3]],
                                  "searched": {"cases": evaluated, "failing_input": None}})
             violations.append(path)
             lines.append(f"VIOLATION property={prop} replay={path} no-failing-input-found")
